@@ -1969,6 +1969,24 @@ pub fn run(kv: &Args) {
                 _ => book_and_engine(&mut e, &mut r, kv, &positions),
             }
         }
+        "clicount" => {
+            if shard == 0 {
+                e.exec(&format!("clicount {}", kv.num("depth", 2)));
+            }
+        }
+        "watch" => {
+            // the real engine-vs-engine loop, several games (the book choice is random), depths 1 and 2
+            let games = kv.num("games", 4) as usize;
+            let limit = kv.num("limit", 40);
+            for i in 0..games {
+                if i % shards != shard {
+                    continue;
+                }
+                let d = 1 + (i % 2);
+                e.exec(&format!("watch {} {}", limit, d));
+                e.tally("watch-games");
+            }
+        }
         "apirepetition" => {
             if shard == 0 {
                 api_repetition(&mut e, &mut rng, kv.num("count", 3) as usize);
